@@ -18,7 +18,6 @@ package textanalyzer
 
 import (
 	"fmt"
-	"runtime/debug"
 	"strings"
 	"testing"
 	"unicode"
@@ -85,11 +84,8 @@ func c20RunText(c c20TextCase) (msg string) {
 	stage := "start"
 	defer func() {
 		if r := recover(); r != nil {
-			st := string(debug.Stack())
-			if len(st) > 1800 {
-				st = st[:1800]
-			}
-			msg = fmt.Sprintf("panic in %s on input %s: %v\n%s", stage, c20Clip(s), r, st)
+			st := c20Stack()
+			msg = fmt.Sprintf("panic in %s on input %s: %v at %s", stage, c20Clip(s), r, st)
 		}
 	}()
 
@@ -237,7 +233,7 @@ func TestVerif_C20_text(t *testing.T) {
 		}
 		return
 	}
-	verifkit.RapidSetup(3000, 45000)
+	verifkit.RapidSetup(3500, 150000)
 	gen := c20GenText(false)
 	rapid.Check(t, func(rt *rapid.T) {
 		c := c20TextCase{Text: gen.Draw(rt, "text"), Lang: c20Pick(rt, c20Langs, "lang")}
